@@ -387,17 +387,20 @@ def c08(F: Facts):
         elif r[2] == 'changed_after_complete':
             ev, what = r[3], r[4]
             obs = observed.get(ev, 0)
-            # results added by a bus the user dispatched the already-complete event to afterwards are the
-            # user's doing, not an instability of completion
+            # results added by a bus the program dispatched the already-complete event to afterwards are the
+            # program's doing, not an instability of completion.  "Already complete" = its completion had been
+            # signalled (the library only signals when no accepting bus is outstanding, so any later acceptance is an
+            # explicit re-dispatch of a complete event).
+            done = min(obs, F.sig.get(ev, obs))
             user_later = set()
             for seq, t, actor, bus, e, outcome, hl in F.disps:
-                if e == ev and outcome == 'ok' and seq > obs and not actor.startswith('fwd:'):
+                if e == ev and outcome == 'ok' and seq > done and not actor.startswith('fwd:'):
                     user_later.add(bus)
                     # ... and everything that bus forwards it to afterwards
             if user_later:
                 reach = set(user_later)
                 for seq, t, actor, bus, e, outcome, hl in F.disps:
-                    if e == ev and outcome == 'ok' and seq > obs and actor.startswith('fwd:') and actor.split(':', 1)[1] in reach:
+                    if e == ev and outcome == 'ok' and seq > done and actor.startswith('fwd:') and actor.split(':', 1)[1] in reach:
                         reach.add(bus)
                 what2 = tuple(x for x in what if not (x.startswith('result_') and x.split(':', 1)[-1] in reach))
                 if not [x for x in what2 if x.startswith('result_') or x == 'signal_cleared']:
